@@ -12,15 +12,14 @@ import (
 )
 
 // The fmt.Scanner entry points (Uint128.Scan / Int128.Scan). On the modelled tree Scan reads one blank-delimited token
-// (state.Token(true, nil)), ignores the verb altogether and hands the whole token to *FromString; so for every token
+// (state.Token(true, nil)) and hands scanText(token, verb) to *FromString: the verbs b, o/O, x/X insert their base prefix
+// (after the sign) unless the text already starts with 0 and a prefix letter of that base, d drops zero padding, every
+// other verb leaves the token alone.  Two uses:
 //
-//	Scan(token) ≡ FromString(token)   (value and error-ness), whatever the verb,
-//
-// and the input after the token stays readable as the next token.  Two uses:
-//
-//   - area `scan` (differential): the line `u|i fromstring <hex token>` is answered by the Lean model with
-//     Conv.*.fromString and by this harness with Sscan / Sscanf / Sscanln / Fscan / Fscanf around the token (leading blanks,
-//     separators, a following token, all derived from a hash of the line); the outputs use the model's format.
+//   - area `scan` (differential): the line `u|i scan <verb> <hex token>` is answered by the Lean model with
+//     Conv.*.scan (= fromString (scanText token verb)) and by this harness with Sscanf / Fscanf of that verb — and, for
+//     the verb v, also Sscan / Sscanln / Fscan — around the token (leading blanks, separators, a following token, all
+//     derived from a hash of the line); the outputs use the format of the model's fromstring.
 //   - oracle `glue`: every rendering Format produces is scanned back (scanBackChecks).
 
 type val interface{ num.Uint128 | num.Int128 }
@@ -47,10 +46,6 @@ func fromStringOf[T val](s string) (T, error) {
 	}
 }
 
-// scanVerbs are handed to Scan through Sscanf; the modelled Scan ignores the verb, so all of them behave like %v
-// (fmt hands any verb character to a Scanner without checking it).
-var scanVerbs = []string{"%v", "%d", "%x", "%X", "%o", "%O", "%b", "%s", "%q", "%c", "%e", "%U", "%t", "%5v", "%600d"}
-
 type scanOutcome struct {
 	how  string
 	ok   bool
@@ -58,19 +53,24 @@ type scanOutcome struct {
 	note string // problem with the rest of the input
 }
 
-// scanMethods runs every fmt entry point on lead+tok+sep+next and reports what came back for the first operand and
-// whether the next token was still readable afterwards.
-func scanMethods[T val](tok string, h uint64) []scanOutcome {
+// scanMethods runs the fmt entry points that pass the given verb to Scan on lead+tok+sep+next and reports what came
+// back for the first operand and whether the next token was still readable afterwards.
+func scanMethods[T val](tok string, verb byte, h uint64) []scanOutcome {
 	pick := func(xs []string) string { r := xs[h%uint64(len(xs))]; h = h*0x9E3779B97F4A7C15 + 0x7F4A7C15; return r }
 	lead := pick([]string{"", " ", "  ", "\t", " \t "})
 	leadNL := pick([]string{"", "\n", " \n ", "\r\n", "\v\f"})
 	sep := pick([]string{" ", "\t", "  ", " \t"})
 	sepNL := pick([]string{" ", "\n", " \n", "\r\n", "\t"})
 	next := pick([]string{"42", "-7", "abc", "7.5", "0x1f", "1e3", "_", "/"})
-	verb := pick(scanVerbs)
-	if n := utf8.RuneCountInString(tok); (verb == "%5v" && n > 5) || (verb == "%600d" && n > 600) {
-		verb = "%v" // a width shorter than the token cuts the token: not the situation described here
+	wide := pick([]string{"", "600", "5"})
+	if n := utf8.RuneCountInString(tok); (wide == "5" && n > 5) || (wide == "600" && n > 600) {
+		wide = "" // a width shorter than the token cuts the token: not the situation described here
 	}
+	if verb == 'c' && wide == "5" {
+		wide = "" // fmt does not skip blanks before %c, so a small width would count the leading blanks
+	}
+	pv := "%" + string(verb)
+	wv := "%" + wide + string(verb)
 	var outs []scanOutcome
 	rec := func(how string, v T, err error, n, wantN int, s string, checkNext bool) {
 		o := scanOutcome{how: how, ok: err == nil}
@@ -89,56 +89,60 @@ func scanMethods[T val](tok string, h uint64) []scanOutcome {
 	}
 	if tok == "" {
 		// nothing but blanks: every entry point must report an error
-		var v T
-		n, err := fmt.Sscan(leadNL+lead, any(&v))
-		rec("Sscan", v, err, n, 1, "", false)
 		var v2 T
-		n, err = fmt.Sscanf(lead, verb, any(&v2))
-		rec("Sscanf("+verb+")", v2, err, n, 1, "", false)
-		var v3 T
-		n, err = fmt.Fscan(strings.NewReader(lead), any(&v3))
-		rec("Fscan", v3, err, n, 1, "", false)
+		n, err := fmt.Sscanf(lead, wv, any(&v2))
+		rec("Sscanf("+wv+")", v2, err, n, 1, "", false)
+		if verb == 'v' {
+			var v T
+			n, err = fmt.Sscan(leadNL+lead, any(&v))
+			rec("Sscan", v, err, n, 1, "", false)
+			var v3 T
+			n, err = fmt.Fscan(strings.NewReader(lead), any(&v3))
+			rec("Fscan", v3, err, n, 1, "", false)
+		}
 		return outs
 	}
 	{
 		var v T
 		var s string
-		n, err := fmt.Sscan(leadNL+lead+tok+sepNL+next+" tail", any(&v), &s)
-		rec("Sscan", v, err, n, 2, s, err == nil)
+		n, err := fmt.Sscanf(lead+tok+sep+next+" tail", pv+" %s", any(&v), &s)
+		rec("Sscanf("+pv+")", v, err, n, 2, s, err == nil)
 	}
 	{
 		var v T
 		var s string
-		r := strings.NewReader(leadNL + lead + tok + sepNL + next + "\ntail")
-		n, err := fmt.Fscan(r, any(&v))
-		_, _ = fmt.Fscan(r, &s) //nolint:errcheck // s is compared
-		rec("Fscan", v, err, n, 1, s, true)
-	}
-	{
-		var v T
-		var s string
-		n, err := fmt.Sscanf(lead+tok+sep+next+" tail", "%v %s", any(&v), &s)
-		rec("Sscanf(%v)", v, err, n, 2, s, err == nil)
-	}
-	{
-		var v T
-		var s string
-		n, err := fmt.Sscanf(lead+tok+sep+next, verb+" %s", any(&v), &s)
-		rec("Sscanf("+verb+")", v, err, n, 2, s, err == nil)
+		n, err := fmt.Sscanf(lead+tok+sep+next, wv+" %s", any(&v), &s)
+		rec("Sscanf("+wv+")", v, err, n, 2, s, err == nil)
 	}
 	{
 		var v T
 		var s string
 		r := strings.NewReader(lead + tok + sep + next + " tail")
-		n, err := fmt.Fscanf(r, verb, any(&v))
+		n, err := fmt.Fscanf(r, wv, any(&v))
 		_, _ = fmt.Fscan(r, &s) //nolint:errcheck // s is compared
-		rec("Fscanf("+verb+")", v, err, n, 1, s, true)
+		rec("Fscanf("+wv+")", v, err, n, 1, s, true)
 	}
-	{
-		var v T
-		var s string
-		n, err := fmt.Sscanln(lead+tok+sep+next+"\ntail", any(&v), &s)
-		rec("Sscanln", v, err, n, 2, s, err == nil)
+	if verb == 'v' { // the entry points without a format pass the verb v
+		{
+			var v T
+			var s string
+			n, err := fmt.Sscan(leadNL+lead+tok+sepNL+next+" tail", any(&v), &s)
+			rec("Sscan", v, err, n, 2, s, err == nil)
+		}
+		{
+			var v T
+			var s string
+			r := strings.NewReader(leadNL + lead + tok + sepNL + next + "\ntail")
+			n, err := fmt.Fscan(r, any(&v))
+			_, _ = fmt.Fscan(r, &s) //nolint:errcheck // s is compared
+			rec("Fscan", v, err, n, 1, s, true)
+		}
+		{
+			var v T
+			var s string
+			n, err := fmt.Sscanln(lead+tok+sep+next+"\ntail", any(&v), &s)
+			rec("Sscanln", v, err, n, 2, s, err == nil)
+		}
 	}
 	return outs
 }
@@ -149,11 +153,11 @@ func lineHash(s string) uint64 {
 	return f.Sum64()
 }
 
-// scanLine answers `u|i fromstring <hex token>` through the Scan methods, in the output format of the model's
+// scanLine answers `u|i scan <verb> <hex token>` through the Scan methods, in the output format of the model's
 // fromstring (`ok <v> <v>` / `err <zero>`); a disagreement between the entry points, or a next token that is no longer
 // readable, is appended and so becomes a mismatch with the model.
-func scanLine[T val](line, tok string) string {
-	outs := scanMethods[T](tok, lineHash(line))
+func scanLine[T val](line, tok string, verb byte) string {
+	outs := scanMethods[T](tok, verb, lineHash(line))
 	first := outs[0]
 	var probs []string
 	for _, o := range outs {
@@ -182,18 +186,22 @@ type scanArea struct{}
 
 func (scanArea) Run(line string) string {
 	f := strings.Fields(line)
-	if len(f) != 3 || f[1] != "fromstring" {
+	if len(f) != 4 || f[1] != "scan" || len(f[2]) != 1 {
 		return "bad-op"
 	}
-	tok := string(hx.UnHex(f[2]))
+	verb := f[2][0]
+	if !((verb >= 'a' && verb <= 'z') || (verb >= 'A' && verb <= 'Z')) {
+		return "bad-op"
+	}
+	tok := string(hx.UnHex(f[3]))
 	if !tokenOK(tok) {
 		return "bad-op"
 	}
 	switch f[0] {
 	case "u":
-		return scanLine[num.Uint128](line, tok)
+		return scanLine[num.Uint128](line, tok, verb)
 	case "i":
-		return scanLine[num.Int128](line, tok)
+		return scanLine[num.Int128](line, tok, verb)
 	}
 	return "bad-op"
 }
@@ -225,41 +233,101 @@ func sanitizeToken(s string) string {
 
 var junkTails = []string{"abc", ".5", "/2", "x", ",", ";", ")", "e", "e+", "_", ".", "e1", "E-1", "p1", "L", "n", "%", "\x00", "é", "0x"}
 
+const baseLetters = "dboOxX"
+const otherLetters = "vvvvsqceUtgT"
+
+// genSpec builds a print specification Format honours: flags, optional width / zero padding / precision, base verb.
+func genSpec(r *hx.Rng, letter byte, digits int) string {
+	spec := "%" + hx.Pick(r, []string{"", "", "#", "+", " ", "+#", " #", "-"})
+	switch r.Intn(8) {
+	case 0:
+		spec += "0" + fmt.Sprint(digits+r.Range(1, 4)) // a few padding zeros (a single one included)
+	case 1:
+		spec += "0" + fmt.Sprint(r.Range(1, 140))
+	case 2:
+		spec += fmt.Sprint(r.Range(1, 60))
+	case 3:
+		spec += "." + fmt.Sprint(digits+r.Range(0, 3))
+	case 4:
+		spec += "." + fmt.Sprint(r.Range(0, 140))
+	}
+	return spec + string(letter)
+}
+
 func (scanArea) Gen(r *hx.Rng, n int, _ string, emit func(string)) {
 	for i := 0; i < n; i++ {
 		var t string
+		verb := hx.Pick(r, []byte(baseLetters+baseLetters+otherLetters))
 		switch r.Intn(8) {
 		case 0, 1: // a valid literal with a tail that does not belong to it
 			t = genValidText(r) + hx.Pick(r, junkTails)
-		case 2: // a rendering of Format with an explicit base
+		case 2, 3, 4: // a rendering of Format, scanned with the verb it was printed with (mostly) or another one
 			hi, lo := genPair(r)
-			v := num.Uint128FromComponents(hi, lo)
-			t = fmt.Sprintf(hx.Pick(r, []string{"%#x", "%#X", "%O", "%#b", "%#o", "%x", "%X", "%o", "%b", "%+d", "%+#x"}), v)
+			if r.Chance(1, 3) {
+				hi, lo = 0, uint64(r.Intn(1<<uint(r.Range(1, 16))))
+			}
+			letter := hx.Pick(r, []byte(baseLetters))
+			var spec string
 			if r.Bool() {
-				t = "-" + strings.TrimPrefix(t, "+")
+				v := num.Uint128FromComponents(hi, lo)
+				spec = genSpec(r, letter, len(fmt.Sprintf("%"+string(letter), v)))
+				t = fmt.Sprintf(spec, v)
+			} else {
+				v := num.Int128FromComponents(hi, lo)
+				spec = genSpec(r, letter, len(strings.TrimPrefix(fmt.Sprintf("%"+string(letter), v), "-")))
+				t = fmt.Sprintf(spec, v)
+			}
+			if fs := strings.Fields(t); len(fs) > 0 {
+				t = fs[0]
+			}
+			if r.Chance(4, 5) {
+				verb = letter
+			}
+			if r.Chance(1, 12) {
+				t = mutate(r, t)
 			}
 		default:
 			t = genText(r)
 		}
 		t = sanitizeToken(t)
-		emit(hx.Pick(r, []string{"u", "i"}) + " fromstring " + hx.Hex([]byte(t)))
+		emit(hx.Pick(r, []string{"u", "i"}) + " scan " + string(verb) + " " + hx.Hex([]byte(t)))
 	}
 }
 
 // ------------------------------------------------------------------------------------------------ glue: scan back
 
-// printVerbs: every verb/flag/width combination Format honours (it delegates to big.Int.Format).  selfDescribing marks
-// the renderings that FromString reads back as the same value (decimal, or carrying their base prefix); for the others
-// (bare %x %o %b, zero padding that looks like an octal prefix, the bad-verb text) only Scan ≡ FromString is demanded.
-var printVerbs = []struct {
+// baseVerb: the verbs for which Scan honours the base / padding the text was printed with.
+func baseVerb(letter string) bool {
+	return len(letter) == 2 && strings.Contains(baseLetters, letter[1:])
+}
+
+// printSpecs: every verb/flag/width/precision combination Format honours (it delegates to big.Int.Format) for a value
+// whose bare rendering has the given number of digits; `self` marks the renderings FromString reads back unaided.
+type printSpec struct {
 	verb string
 	self bool
-}{
-	{"%d", true}, {"%v", true}, {"%s", true}, {"%+d", true}, {"% d", true}, {"%45d", true}, {"%-45d|", true}, {"%+v", true},
-	{"%#v", true}, {"%45v", true}, {"%#x", true}, {"%#X", true}, {"%O", true}, {"%#o", true}, {"%#b", true}, {"%+#x", true},
-	{"%+#b", true}, {"%-50O|", true}, {"%50O", true}, {"% #x", true},
-	{"%x", false}, {"%X", false}, {"%o", false}, {"%b", false}, {"%045d", false}, {"%.50d", false}, {"%+.3x", false},
-	{"%10.5s", false}, {"%#.40x", false}, {"%q", false}, {"%c", false}, {"%e", false}, {"%U", false},
+}
+
+var fixedSpecs = []printSpec{
+	{"%v", true}, {"%s", true}, {"%+v", true}, {"%#v", true}, {"%45v", true}, {"%-45s|", true},
+	{"%10.5s", false}, {"%q", false}, {"%c", false}, {"%e", false}, {"%U", false},
+}
+
+func printSpecsFor[T val](v T) []printSpec {
+	specs := append([]printSpec(nil), fixedSpecs...)
+	for _, letter := range []string{"d", "b", "o", "O", "x", "X"} {
+		digits := len(strings.TrimLeft(fmt.Sprintf("%"+letter, any(v)), "+-"))
+		for _, flags := range []string{"", "#", "+", " ", "+#", " #"} {
+			prefixed := letter == "O" || (strings.Contains(flags, "#") && letter != "d")
+			for _, wp := range []string{"", "45", "-45", "045", "0140", ".50", ".140", fmt.Sprintf("0%d", digits+1), fmt.Sprintf("0%d", digits+2),
+				fmt.Sprintf(".%d", digits+1), fmt.Sprintf("0%d", digits+3+len(flags))} {
+				padded := strings.HasPrefix(wp, "0") || strings.HasPrefix(wp, ".")
+				self := (letter == "d" && !padded) || prefixed
+				specs = append(specs, printSpec{"%" + flags + wp + letter, self})
+			}
+		}
+	}
+	return specs
 }
 
 func verbLetter(pv string) string {
@@ -272,16 +340,18 @@ func verbLetter(pv string) string {
 	return "%v"
 }
 
-// scanBackChecks prints v with every verb and scans the text back with the matching verb, with %v, with Sscan and
-// with Fscan.  fail is called for every departure from Scan(token) ≡ FromString(token) and, for self-describing
-// renderings, from "the identical value comes back".
+// scanBackChecks prints v with every specification and scans the text back
+//   - with the verb it was printed with: for d b o O x X the identical value must come back, whatever the flags,
+//     padding, width and precision; for the other verbs Scan(token) ≡ FromString(token);
+//   - with %v, Sscan and Fscan: Scan(token) ≡ FromString(token), and the identical value for self-describing texts.
 func scanBackChecks[T val](v T, fail func(string, ...any)) {
-	for _, pv := range printVerbs {
+	for _, pv := range printSpecsFor(v) {
 		text := fmt.Sprintf(pv.verb, any(v))
 		tok := ""
 		if fs := strings.Fields(text); len(fs) > 0 {
 			tok = fs[0]
 		}
+		letter := verbLetter(pv.verb)
 		ev, eerr := fromStringOf[T](tok)
 		if pv.self && (eerr != nil || ev != v) {
 			fail("Sprintf(%q)=%q does not parse back: %s,%v", pv.verb, text, compsOf(ev), eerr)
@@ -294,8 +364,15 @@ func scanBackChecks[T val](v T, fail func(string, ...any)) {
 			}
 		}
 		var a, b, c, d T
-		_, err := fmt.Sscanf(text, verbLetter(pv.verb), any(&a))
-		judge("Sscanf("+verbLetter(pv.verb)+")", a, err)
+		_, err := fmt.Sscanf(text, letter, any(&a))
+		switch {
+		case baseVerb(letter):
+			if err != nil || a != v {
+				fail("Sscanf(%s) of %q (printed with %s): %s,%v, not the value printed", letter, text, pv.verb, compsOf(a), err)
+			}
+		default:
+			judge("Sscanf("+letter+")", a, err)
+		}
 		_, err = fmt.Sscanf(text, "%v", any(&b))
 		judge("Sscanf(%v)", b, err)
 		_, err = fmt.Sscan(text, any(&c))
